@@ -56,6 +56,29 @@ CHECKS = {
                       "even with the collector off are not judged here",
         "assumptions": ["H1 stamps are maintained by the feature-guarded hook only and do not change behaviour (2454 tests pass with the feature on)"],
     },
+    "C03": {
+        "engines": NATIVE,
+        "level": "exploration",
+        "rule": "(1) syntax matrix: 80 TypeScript type forms x 10 annotation positions, 75 further static constructs (generics, member "
+                "modifiers, declarations incl. declare/overloads/abstract, assertions, call type arguments, this-parameters), and an "
+                "enumerated universe of ~2300 types (31 leaves, 26 constructors applied once, and a seed-independent sample of "
+                "double applications), each in a minimal program that must evaluate like its erased form; (2) 66 hand-written JS/TS "
+                "pairs for ambiguous positions, also embedded in a function body, plus module-mode pairs for type-only imports/exports; "
+                "(3) composed programs whose text carries typed slots: every single slot filled alone with palette forms, and random "
+                "multi-slot decorations with types drawn from the certified part of the universe. Every (program, decoration) pair is "
+                "distinct; a pair is non-trivial when the plain program terminates within the step budget",
+        "exhaustive": "the syntax matrix and the single-slot pass are enumerated at every seed",
+        "floor": {"quick": 5000, "thorough": 30000},
+        "technique": "runtime monitoring: metamorphic oracle P vs D(P) (outcome tuple equality in fresh interpreters) over an enumerated "
+                     "type-syntax matrix and slot-decorated generated programs",
+        "level_text": "Adding static syntax must leave acceptance and the outcome tuple unchanged. Type forms tsrun's parser rejects are "
+                      "ledgered by their smallest rejected sub-form; random decorations use only certified forms so that any new "
+                      "rejection or behavioural difference is reported.",
+        "level_note": "no TypeScript compiler is available offline: the validity of the generated type syntax rests on the grammar in "
+                      "harness/src/checks/c03.rs following the TypeScript handbook; instruction-count differences between P and D(P) "
+                      "are reported as a statistic only (not observable behaviour)",
+        "assumptions": ["all FORMS/SYNTAX/PAIRS entries are valid TypeScript 5.x"],
+    },
     "C11": {
         "engines": NATIVE,
         "level": "exploration",
